@@ -26,7 +26,7 @@ NOT DECIDED  `get` (indexing `self.ranges[id.index]`: `Index` of IndexSet, not m
   once (batch wlists: one emitted list per table element, in table order), `Default` (BaseId::default is a process-wide counter).
 """
 from lib import *
-from batches import core, wcore, wunit, wcfi_table
+from batches import core, wcore, wunit
 
 TRUSTED = list(wcore.TRUSTED) + ['FnvIndexSet', 'insert_full', 'len', 'get_index', 'insert', 'RangeList', 'LocationList']
 OWN = ['C16']
@@ -34,6 +34,50 @@ VERUS_ARGS = ['--rlimit', '40']
 
 T0 = 'old(self)'
 T1 = 'final(self)'
+
+# same text as batch wcfi_table's model (kept here so that the two batches can evolve independently)
+INDEXSET = '''
+/// T's `Eq` (for CommonInformationEntry: derive(PartialEq, Eq, Hash)); uninterpreted
+pub uninterp spec fn set_eq<T>(a: T, b: T) -> bool;
+
+/// MODEL (TRUSTED, dependency): `FnvIndexSet<T>` = indexmap::IndexSet<T, FnvBuildHasher>, viewed as the sequence of its
+/// elements in insertion order.  Only the three methods FrameTable uses are modelled, with indexmap's documented behaviour.
+#[verifier::external_body]
+#[verifier::accept_recursive_types(T)]
+pub struct FnvIndexSet<T> { model_only: core::marker::PhantomData<T> }
+
+impl<T> FnvIndexSet<T> {
+    pub uninterp spec fn elems(&self) -> Seq<T>;
+
+    pub open spec fn has(s: Seq<T>, v: T) -> bool {
+        exists|j: int| 0 <= j < s.len() && set_eq(#[trigger] s[j], v)
+    }
+
+    /// "Insert the value into the set, and get its index. If an equivalent item already exists in the set, it returns the
+    /// index of the existing item and false, leaving the original value in the set [...] Otherwise, it inserts the new
+    /// item and returns the index of the inserted item and true." (indexmap)
+    #[verifier::external_body]
+    pub fn insert_full(&mut self, value: T) -> (res: (usize, bool))
+        ensures
+            Self::has(old(self).elems(), value) ==> final(self).elems() == old(self).elems() && !res.1
+                && res.0 < old(self).elems().len() && set_eq(old(self).elems()[res.0 as int], value),
+            !Self::has(old(self).elems(), value) ==> final(self).elems() == old(self).elems().push(value) && res.1
+                && res.0 == old(self).elems().len(),
+    { unimplemented!() }
+
+    #[verifier::external_body]
+    pub fn len(&self) -> (res: usize)
+        ensures res == self.elems().len()
+    { unimplemented!() }
+
+    #[verifier::external_body]
+    pub fn get_index(&self, index: usize) -> (res: Option<&T>)
+        ensures
+            index < self.elems().len() ==> res == Some(&self.elems()[index as int]),
+            index >= self.elems().len() ==> res is None,
+    { unimplemented!() }
+}
+'''
 
 INDEXSET_MORE = '''
 impl<T> FnvIndexSet<T> {
@@ -100,7 +144,7 @@ def populate(ctx, sk):
     if not wcore._has(sk, 'write', 'struct BaseId'):
         sk.add('write', wmod.item(r'^struct BaseId\(usize\);', label='BaseId').clean())
     wcore.ensure_structural(sk, 'write', 'BaseId')
-    sk.add('write', wcfi_table.INDEXSET, label='FnvIndexSet(model)')
+    sk.add('write', INDEXSET, label='FnvIndexSet(model)')
     sk.add('write', INDEXSET_MORE, label='FnvIndexSet(model, insert)')
     table(ctx, sk, 'write::range', 'write/range.rs', 'RangeListTable', 'RangeList', 'RangeListId', 'ranges', 'range_list')
     table(ctx, sk, 'write::loc', 'write/loc.rs', 'LocationListTable', 'LocationList', 'LocationListId', 'locations', 'loc_list')
